@@ -126,8 +126,12 @@ def main(tier):
         run.ob("callers", "the %s transition (%s) is reachable only through %s" % (role, k.split("::", 1)[1], gate.split("::", 1)[1]), ok,
                key="callers|%s transition of the stamp reachable outside %s" % (role, gate.rsplit("::", 1)[-1]), detail=idx.ungated_path(k, {gate}), nontrivial=("callers", role))
     callers = sorted({k for (k, bi, t) in idx.callers.get(FREE, [])})
-    run.ob("callers", "free_node is called only from NodeId::remove", callers == ["crate::id::NodeId::remove"],
-           key="callers|free_node called from %s" % (",".join(c for c in callers if c != "crate::id::NodeId::remove") or "nowhere"), detail=callers, nontrivial=("callers", "free_node"))
+    # free_node expects an unlinked node; every caller must be one of the removal entry points E2 explores together with the call (J5 at their exits shows the
+    # freed node was unlinked), or a private helper reachable only through them
+    REMOVERS = {"crate::id::NodeId::remove", "crate::id::NodeId::remove_subtree"}
+    strayf = [c for c in callers if not idx.gated(c, REMOVERS)]
+    run.ob("callers", "free_node is called only below NodeId::remove / NodeId::remove_subtree: %s" % callers, bool(callers) and not strayf,
+           key="callers|free_node called from %s" % (",".join(strayf) or "nowhere"), detail=callers, nontrivial=("callers", "free_node"))
     run.floor("stamp write sites found", len(sites) + len(nsites), 4)
     run.extra["written_argument"] = ("Per slot: the first id carries stamp 0 (Default in Node::new). A slot's stamp is changed only by free_node (live s -> f(s) < 0) and by "
                                      "Node::reuse on a free-list member (f(s) -> g(f(s)) > s by O2). So the live stamps of a slot are strictly increasing and removed stamps are "
